@@ -28,8 +28,11 @@ reader.nested.resync     after a nested reader was used/abandoned, the parent's
                          tail of the nested part
 
 A history stops at the first disagreement (afterwards model and reader are out
-of step and further verdicts would be noise) and at the first *expected*
-DelimiterError (position afterwards is unspecified, rule R3). Every history
+of step and further verdicts would be noise). After an *expected* DelimiterError
+(read_until / pipe_until with consume_delimiter=True whose extent is not
+followed by the delimiter) the history goes on with the cursor right behind the
+extent: that is where the flat cursor stands, and a reader that swallowed more
+than that would skip data. Every history
 that is still running at its end is closed by a final `read()` that must return
 exactly the rest of the flat stream (signature op=final_drain); this is what
 makes silent state corruption by the last operation visible.
@@ -105,7 +108,8 @@ ASSUMPTIONS = (
     '(tests/test_buffered_reader.py, tests/asgi/test_buffered_reader.py)',
     'sizes are None, -1 or >= 0; readlines hints are -1 or >= 1 (hint 0 differs between io and '
     'Falcon and has no agreed flat meaning)',
-    'a history ends at the first expected DelimiterError; illegal delimiter lengths are only '
+    'after an expected DelimiterError the cursor stands right behind the extent that was read or piped '
+    '(the histories go on from there); illegal delimiter lengths are only '
     'issued where both readers validate them (never read_until(size=0) / pipe_until at the end)',
     'eof may stay false at the end of the data until an operation had to look past the end; '
     'from then on it must be true exactly when the cursor is at the end',
@@ -709,9 +713,17 @@ class Hist(object):
                     if piped is not None and not self.cmp(cur, depth, kind, kind, piped,
                                                            exp.partial, 'piped'):
                         return
-                    self.stop = True
-                    self.ended = 'delimiter_error'
                     ctx.probe('delimiter_error')
+                    if kind in ('pipe_until', 'read_until'):
+                        # the delimiter was not there to skip: the cursor stands right behind
+                        # the extent and the history goes on ("consumed data is never ... skipped")
+                        cur.pos = exp.pos
+                        if exp.end_probed:
+                            st.end_seen = True
+                        ctx.probe('continued_after_delimiter_error')
+                    else:
+                        self.stop = True
+                        self.ended = 'delimiter_error'
                 else:
                     ctx.probe('value_error')
                 self.ops_done += 1
